@@ -34,3 +34,88 @@ claim('C15', 'Bounded model checking of the real look-ups against ray-walk / geo
       'table index in bounds; rook look-up: all squares x all occupancies in the thorough tier (Kani) and per square by the MIR->SMT engine. '
       'The tables are those the build script emitted for the build under test (recompiled from /repo on every run).',
       TB + 'For non-aligned pairs the strictly-between value is unspecified and not checked.', 'DESIGN.md C15')
+
+GENB = ('Generator-level clauses are decided within GEN bounds only (mover has at most one man of each non-king kind, or king + at most two pawns; '
+        'the opponent stays arbitrary); all per-move clauses are decided for every valid position. ')
+S12N = ('Stubs S1 (slider look-ups replaced by the ray walk that C15 proves equal) and S2 (from-scratch hash made arbitrary) are part of the claim. ')
+
+claim('C01', 'Bounded model checking over FULL = every position accepted by the real Board::try_from (64 symbolic cells, side, rights, e.p. mark, '
+      'counters) x every move tuple, case-split by side and move-kind group (the union of the cases is exhaustive): the prefiltered legality decision '
+      'shared by legal::gen_*, has_legal_moves and the SAN candidates, Move::validate / is_legal_unchecked, and apply-then-test all equal legal_ref '
+      '(mailbox statement of the rules). The list-returning legal generators are decided with the legality filter abstracted (S6: for every predicate '
+      'A the list is exactly the pseudo-legal moves of the class accepted by A, each once) and composed with the filter-exactness result; the '
+      'semilegal generators against semilegal_ref with an observer sink and a symbolic target move.',
+      TB + S12N + GENB + 'Quick tier: the special-move and king cases of the prefiltered decision plus the pawn-only generator bound; '
+      'thorough: every case of every harness.', 'DESIGN.md C01')
+claim('C02', 'One step of every safe entry point from an arbitrary valid position (FULL x every well-formed tuple, by case): Board::make_move and '
+      'Make::make_raw accept exactly the legal moves; an accepted move yields a position that satisfies C11\'s validity conditions with nothing to '
+      'normalise and rebuilt derived sets (thorough: re-validated with the real try_from), mover not in check; a refused move leaves every field '
+      'unchanged; no panic for any counter value. UCI values/strings via C10\'s acceptance harnesses, SAN values via C09\'s soundness harnesses, '
+      'chains via C13\'s one-operation harnesses; histories by the induction of DESIGN.md section 4.',
+      TB + S12N + 'SAN candidate search within GEN(2); SAN/UCI strings longer than 7/6 bytes and sequences of two or more symbolic chain operations are outside.',
+      'DESIGN.md C02')
+claim('C03', 'FULL x every legal move, by case: the position after make equals apply_ref field by field (squares, side, rights, e.p. mark, half-move '
+      'clock, move number - saturating at 65535), for all counter values incl. 99/100, 149/150, 65535 (cover witnesses).',
+      TB + S12N + 'The null move is outside C03\'s quantifier (checked separately for C04).', 'DESIGN.md C03')
+claim('C04', 'FULL x every semilegal (legal or not) and null move, by case: make then unmake restores raw board, hash, colour sets, combined set and '
+      'every per-piece set (one symbolic cell index stands for all 13). Nesting: depth-2 harness in the thorough tier; arbitrary depth by induction on '
+      'the one-step lemma; chain pops and walker steps through C13/C17.', TB + S12N, 'DESIGN.md C04')
+claim('C05', 'Stored sets = rebuild after every semilegal/null move from every valid position; hash: frame + delta lemma from an ARBITRARY pre-state '
+      'hash (S2) for every move, hence stored = from-scratch is preserved by every step; try_from stores the from-scratch hash of the normalised raw '
+      'board (C11 harness); RawBoard::zobrist_hash = XOR of the feature keys for every raw board (no S2) and ignores the counters; key-table facts of '
+      'the build under test (non-zero, pairwise distinct per feature, XOR-linear castling keys, precombined castling deltas).',
+      TB + 'The cancellation step (frame + delta => scratch(after) = scratch(before) ^ delta) is a two-line algebraic argument outside the solver. '
+      'Hash collisions between different positions are outside the claim.', 'DESIGN.md C05')
+claim('C06', 'All 532 480 tuples: is_well_formed / Move::new = geometric possibility (exhaustive by solver). FULL x every well-formed tuple, by case '
+      '(incl. tuples naming the wrong colour or an empty cell): is_semilegal = semilegal_ref. Generators: observer sink with a symbolic target: '
+      'count(target) = [semilegal_ref and class], total <= 256, for the five generators.',
+      TB + S12N + GENB, 'DESIGN.md C06')
+claim('C07', 'FULL, S3 (has_legal_moves = symbolic h): calc_outcome and calc_draw_simple equal the forced > mandatory > claimable classification with '
+      'insufficient material counted from the squares, for all clock values. The probe itself: has_legal_moves under an abstract legality predicate '
+      '(S6) answers false only if every non-castling pseudo-legal move was offered and rejected and true only by stopping on an accepted move; the '
+      'filter is C01\'s prefiltered decision; castling can be skipped by the rule-level lemma (legal castling => legal king step to the transit square).',
+      TB + S12N + GENB, 'DESIGN.md C07')
+claim('C09', 'Value level (san::Data / san::Move): into_move is sound for every value of every variant (a returned move is legal and agrees with '
+      'piece, destination, origin hints, promotion; no other legal move agrees, else Ambiguity with two distinct agreeing legal moves; a value that '
+      'denotes a legal move is not refused), from_move writes piece letter, destination, capture flag, promotion, castling side, check mark '
+      '(+ iff check, # iff check and no legal move under S3), disambiguation hints that exclude every other legal candidate, and resolves back to '
+      'the same move. Parser totality for strings up to 7 bytes (S4).',
+      TB + S12N + 'NOT decided: the rendering of a SAN value as text (Display; core::fmt exceeded 23 GB for one value) and the exact '
+      'grammar of the parser; minimality of the disambiguation with three or more like pieces (GEN(2) bounds the candidate search).', 'DESIGN.md C09')
+claim('C10', 'FULL x every semilegal move: uci::Move::from(m).into_move(b) == m (kind inference). FULL x every uci::Move value: the semilegal / legal '
+      'readers succeed exactly when a semilegal / legal move with that source, destination and promotion exists; null never accepted. Every UTF-8 '
+      'string of at most 6 bytes: accepted iff it matches the UCI grammar, fields read correctly. Thorough: value -> text -> value through core::fmt, '
+      'and the string-level readers composed on FULL.', TB + S12N + 'Strings longer than 6 bytes are rejected by the length test, which is inside the bound.', 'DESIGN.md C10')
+claim('C11', 'Every raw board (13^64 cell assignments x side x rights x e.p. marks x counters, no validity assumption): try_from succeeds exactly when '
+      'the validity conditions hold; every error variant is truthful; the result equals the documented normalisation of the input; derived sets equal '
+      'a rebuild; the stored hash is the from-scratch hash of the normalised board; validating the result again changes nothing.', TB + S12N, 'DESIGN.md C11')
+claim('C12', 'Totality by solver for every well-formed UTF-8 string up to N bytes per entry point (Coord 4, Color 3, Cell 3, CastlingRights 6, UCI 6, '
+      'SAN 5 quick / 7 thorough with S4), with the accepted set characterised byte-wise for all but SAN; re-formatting round trips through core::fmt '
+      'for Coord, Color, Cell, CastlingRights (and UCI in the thorough tier). FEN: two structured families in the thorough tier.',
+      TB + 'S4 (core::str::from_utf8 replaced by the reference UTF-8 automaton). NOT decided: FEN and move-list text beyond the two families, '
+      'SAN/FEN re-formatting (core::fmt), longer strings.', 'DESIGN.md C12')
+claim('C13', 'BaseMoveChain<ArrRepeat> (array-backed exact repetition table): from each stated pre-state (6 start positions x stated concrete prefixes), '
+      'ONE symbolic operation (push of any move tuple, push of any UCI value, pop, set/clear/reset/auto outcome), optionally followed by a pop, is '
+      'compared with the plain-board model in every field (raw, hash, sets, move list, start, outcome, repetition table); chain equality for two chains '
+      'after one symbolic push and outcome each, from equal, clock-different, rights-different and different starts.',
+      TB + 'S1, S3. MoveChain = BaseMoveChain<HashRepeat> is not encodable (HashMap): the chain logic is generic in the table and the result transfers '
+      'assuming HashMap is a correct map and no Zobrist collisions within a game. Two or more symbolic operations in sequence are outside.', 'DESIGN.md C13')
+claim('C14', 'Outcome filter table: exhaustive. Chain precedence: all board outcomes x every usize repetition count x 3 filters (S5). Repetition '
+      'discipline: inside C13\'s one-operation harnesses the table equals the multiset of positions on the current line and the calculated outcome '
+      'equals the model\'s. The board part of the outcome is C07\'s classification harness (run by this check too).',
+      TB + 'As C13; S5 (Board::calc_outcome replaced by a symbolic outcome) in the precedence harness.', 'DESIGN.md C14')
+claim('C16', 'FULL x 64 squares x 2 colours: cell_attackers = men that could capture there (attackers_ref), is_cell_attacked = non-empty; is_check, '
+      'checkers, is_opponent_king_attacked against the same definition. Loop-free, complete over all valid positions.', TB + S12N, 'DESIGN.md C16')
+claim('C17', 'Walker clause only: stated chains extended by one symbolic accepted move, then 6 symbolic walker operations (next, prev, start, end): '
+      'every returned pair = (position preceding move i in every field, move i), pos() tracks the cursor, the chain is untouched.',
+      TB + 'NOT decided: UCI list text, styled list text (numbering, status token) and from_uci_list replay - core::fmt over several moves exceeds '
+      'the budget; chains of at most 9 moves.', 'DESIGN.md C17')
+claim('C18', 'Relational, two runs of the real code on FULL: the mirrored position is valid and unchanged by validation; per move (by case): '
+      'semilegal, legal (validate) and prefiltered legality of t in b equal those of mirror(t) in mirror(b); check status equal; calc_outcome equal '
+      'with the winner swapped (S3); left-right mirror for positions without castling rights. Generators: pawn-only bound in quick, GEN(1) sink '
+      'counts in thorough.', TB + S12N + GENB, 'DESIGN.md C18')
+claim('C19', 'Kani\'s pointer, bounds, overflow and unreachable checks inside the hosting harnesses: every get_unchecked / add_unchecked / '
+      'lookup.add(idx) / push_unchecked / unreachable_unchecked site reached is proved in range for all inputs of that harness\'s domain '
+      '(magic look-ups: all squares x occupancies; zobrist and cell tables: every raw board; validator/attack/make-unmake: FULL; generators: GEN bounds).',
+      TB + 'NOT decided: "no valid position has more than 256 semilegal moves" beyond the GEN bounds (needs a global counting argument); machine-code '
+      'effects of UB are outside any MIR-level tool. Kani analyses MIR with overflow and debug assertions on.', 'DESIGN.md C19')
